@@ -362,7 +362,71 @@ def rule_writer(ctx):
                   "the 2-/3-byte form flag and the padding byte must follow the form used by the overflow gate", f.loc())
 
 
+def rule_fieldlen(ctx):
+    """FIELDLEN: a number field parsed as `self.L = p.get(k); self.F = bytesToNumber(p.getFixBytes(self.L))`
+    is written back with its OWN parsed length: numberToByteArray(self.F, self.L)."""
+    R = "C15.FIELDLEN"
+    pairs_total = 0
+    for mod in ("messages", "extensions"):
+        for cname, ci in ctx.index.module(mod).classes.items():
+            pairs = {}
+            for m in ci.methods.values():
+                for x in own_nodes(m.node):
+                    if isinstance(x, ast.Assign) and len(x.targets) == 1 and isinstance(x.value, ast.Call) \
+                            and call_name(x.value) == "bytesToNumber" and x.value.args \
+                            and isinstance(x.value.args[0], ast.Call) and call_name(x.value.args[0]) == "getFixBytes":
+                        f = attr_chain(x.targets[0])
+                        ln = attr_chain(x.value.args[0].args[0]) if x.value.args[0].args else None
+                        if f and ln and f.startswith("self.") and ln.startswith("self."):
+                            pairs[f] = ln
+            if not pairs:
+                continue
+            pairs_total += len(pairs)
+            for m in ci.methods.values():
+                for c in calls_in(m.node):
+                    if call_name(c) == "numberToByteArray" and len(c.args) >= 2 and attr_chain(c.args[0]) in pairs:
+                        f = attr_chain(c.args[0])
+                        ctx.check(R, attr_chain(c.args[1]) == pairs[f], m.qname,
+                                  "%s written with its own parsed length %s" % (f, pairs[f]),
+                                  "`%s`: the field %s was parsed with length %s, writing it with another length "
+                                  "changes the bytes (and the transcript hash computed over write())" % (
+                                      norm(c), f, pairs[f]), m.loc(c), what="%s %s" % (m.short, f))
+    ctx.require(pairs_total >= 6, "C15.FIELDLEN: %d (field, length) pairs found in parsers, floor 6" % pairs_total)
+
+
+def rule_fresh(ctx):
+    """FRESH: every element parsed inside a loop is parsed into an object constructed in that iteration."""
+    R = "C15.FRESH"
+    n = 0
+    for fi in ctx.index.all_functions():
+        if fi.module.name not in ("messages", "extensions"):
+            continue
+        for lp in own_nodes(fi.node):
+            if not isinstance(lp, (ast.While, ast.For)):
+                continue
+            inner = [x for s_ in lp.body for x in ast.walk(s_)]
+            for c in inner:
+                if not (isinstance(c, ast.Call) and isinstance(c.func, ast.Attribute) and c.func.attr == "parse"):
+                    continue
+                n += 1
+                recv = c.func.value
+                ok = isinstance(recv, ast.Call)
+                if isinstance(recv, ast.Name):
+                    defs_in = [x for x in inner if isinstance(x, ast.Assign) and any(
+                        isinstance(t, ast.Name) and t.id == recv.id for t in x.targets)]
+                    ok = bool(defs_in) and all(isinstance(x.value, ast.Call) and isinstance(x.value.func, ast.Name)
+                                               and x.value.func.id[:1].isupper() for x in defs_in) \
+                        and min(x.lineno for x in defs_in) < c.lineno
+                ctx.check(R, ok, fi.qname, "`%s` parses into an object created in the same iteration" % norm(c)[:60],
+                          "`%s` runs once per list element but its receiver is created outside the loop: elements "
+                          "parsed into the same object alias each other (the last one overwrites the earlier ones)"
+                          % norm(c)[:80], fi.loc(c), what="%s %s" % (fi.short, norm(c)[:50]))
+    ctx.require(n >= 10, "C15.FRESH: %d element parses inside loops found, floor 10" % n)
+
+
 RULES = [
+    ("C15.FIELDLEN", "quick", rule_fieldlen),
+    ("C15.FRESH", "quick", rule_fresh),
     ("C15.PAIR", "quick", rule_pair),
     ("C15.EXHAUST", "quick", rule_exhaust),
     ("C15.LOOPS", "quick", rule_loops),
